@@ -67,11 +67,15 @@ var solvers = []solverSpec{
 	}},
 }
 
+// runSolver limits the solver by CPU time (ulimit -t), not wall time, so that a loaded machine does not turn
+// dischargeable obligations into timeouts; the wall-clock limit is only a backstop (8x).
 func runSolver(s solverSpec, file string, timeout int) (string, string) {
-	ctx, cancel := context.WithTimeout(context.Background(), time.Duration(timeout+2)*time.Second)
+	wall := timeout*8 + 5
+	ctx, cancel := context.WithTimeout(context.Background(), time.Duration(wall)*time.Second)
 	defer cancel()
-	a := s.args(file, timeout)
-	cmd := exec.CommandContext(ctx, a[0], a[1:]...)
+	a := s.args(file, wall)
+	sh := fmt.Sprintf("ulimit -t %d; exec \"$@\"", timeout+1)
+	cmd := exec.CommandContext(ctx, "sh", append([]string{"-c", sh, "sh"}, a...)...)
 	var out bytes.Buffer
 	cmd.Stdout = &out
 	cmd.Stderr = &out
@@ -84,8 +88,14 @@ func runSolver(s solverSpec, file string, timeout int) (string, string) {
 	case "timeout":
 		return "timeout", txt
 	}
-	if first == "" || ctx.Err() != nil {
+	if first == "" || ctx.Err() != nil || strings.Contains(txt, "CPU time limit") {
 		return "timeout", txt
+	}
+	if cmd.ProcessState != nil && !cmd.ProcessState.Success() && first != "sat" && first != "unsat" && first != "unknown" {
+		// killed by the CPU limit (SIGXCPU/SIGKILL) before printing an answer
+		if ws := cmd.ProcessState.String(); strings.Contains(ws, "signal") || strings.Contains(ws, "killed") {
+			return "timeout", txt
+		}
 	}
 	return "error", txt
 }
